@@ -119,6 +119,7 @@ fn check_program_inner(ctx: &mut Ctx, p: &Program) {
 }
 
 fn readback(ctx: &mut Ctx, p: &Program, ser_label: &'static str, bytes: &[u8], expected: &[(u16, Vec<u8>)]) {
+    ctx.wd.tick();
     let w = || {
         let mut v = p.to_json();
         v["serialised_by"] = serde_json::json!(ser_label);
